@@ -105,7 +105,7 @@ def interleave : Bool → List Nat → List Nat → List Ext1
   | true, p :: ps, ts => ⟨true, p⟩ :: interleave false ps ts
   | false, ps, t :: ts => ⟨false, t⟩ :: interleave true ps ts
   | _, _, _ => []
-termination_by b ps ts => ps.length + ts.length
+termination_by _ ps ts => ps.length + ts.length
 
 /-- the sequence is a valid alternating extrema sequence for `sig`: strictly increasing, inside the signal. -/
 def validSeq (n : Nat) : List Ext1 → Bool
